@@ -2,6 +2,7 @@ package props
 
 import (
 	"bytes"
+	"encoding/binary"
 	"fmt"
 	"unsafe"
 
@@ -9,6 +10,7 @@ import (
 	"github.com/contiv/libOpenflow/util"
 
 	"vh/fw"
+	"vh/gen"
 	"vh/lib"
 	"vh/prng"
 	"vh/rec"
@@ -26,7 +28,7 @@ type c12Case struct {
 func init() {
 	fw.Register(&fw.Prop{
 		ID:       "C12",
-		Rule:     "conformant frames of every kind the parser entry point accepts (switch-originated: hello, error, experimenter error, echo, features/get-config replies, packet-in with every payload chain, flow-removed, port-status, every multipart reply with nested matches/instructions/actions, vendor replies; controller-originated: flow-mod, group-mod, packet-out, port-mod, multipart requests, Nicira messages, bundle control and bundle add with nested messages) are parsed from a buffer that is a window of a larger array. Monitor A walks the whole object graph of the result by reflection (exported and unexported fields, pointers, interfaces, slices, maps, bytes.Buffer internals) and reports any slice whose backing array overlaps the input array. Monitor B takes the deep dump and the re-encoding, overwrites the whole input array (complement, then 0xAA), and requires dump and re-encoding to be unchanged. distinct = hash(recipe without xid); non-trivial = the message has at least one variable-size part (nested element, payload or data)",
+		Rule:     "conformant frames of every kind the parser entry point accepts (switch-originated: hello, error, experimenter error, echo, features/get-config replies, packet-in with every payload chain, flow-removed, port-status, every multipart reply with nested matches/instructions/actions, vendor replies; controller-originated: flow-mod, group-mod, packet-out, port-mod, multipart requests, Nicira messages, bundle control and bundle add with nested messages) are parsed from a buffer that is a window of a larger array. Monitor A walks the whole object graph of the result by reflection (exported and unexported fields, pointers, interfaces, slices, maps, bytes.Buffer internals) and reports any slice whose backing array overlaps the input array. Monitor B takes the deep dump and the re-encoding, overwrites the whole input array (complement, then 0xAA), and requires dump and re-encoding to be unchanged. The same monitors run on whatever else the parser accepts: bundle adds around message kinds the library has no decoder for, and a PRNG-chosen handful of hostile variants (the mutation classes of C07) of every fourth frame. distinct = hash(recipe without xid); non-trivial = the message has at least one variable-size part (nested element, payload or data)",
 		NumCases: func(tier string, seed uint64) int { return nCases(tier, 300000, 12000000) },
 		Gen: func(tier string, seed uint64, i int) any {
 			r := prng.Derive(seed, 1212, uint64(i))
@@ -64,6 +66,62 @@ func c12Eval(c *fw.Ctx, data any) {
 	n, nested := countNested(m)
 	nt := n > 0 || len(wire) > 16
 	c.Distinct(hashNoXid(m), nt)
+	if !c12Observe(c, cs, kind, wire, true) {
+		return
+	}
+	c.Set("kinds", kind)
+	for k := range nested {
+		c.Set("nested_kinds", k)
+	}
+	if m.K == "packet_in" {
+		c.Set("payload_chains", payloadChain(m.Sub("packet")))
+	}
+	// Whatever the parser accepts is in scope, conformant or not ("for all parseable frames"): (a) a bundle add
+	// around each message kind the library has no decoder for, should the parser take it; (b) hostile variants of
+	// the frame (the mutation classes of C07), a PRNG-chosen handful per case.
+	r := prng.Derive(c.Seed, 1213, uint64(c.Index))
+	if m.K == "bundle_add" && len(wire) >= 32 {
+		il := int(binary.BigEndian.Uint16(wire[26:28]))
+		if il >= 8 && 24+il <= len(wire) {
+			inner := undecodableFrame(r, r.U32())
+			v := append(append(append([]byte(nil), wire[:24]...), inner...), wire[24+il:]...)
+			if len(v) <= 65535 {
+				binary.BigEndian.PutUint16(v[2:], uint16(len(v)))
+				c.Count("bundles_around_undecoded_kinds", 1)
+				if c12Observe(c, cs, kind+"+undecoded-inner", v, false) {
+					c.Count("bundles_around_undecoded_kinds_parsed", 1)
+				}
+			}
+		}
+	}
+	if c.Index%4 == 0 && len(wire) <= 4096 {
+		want := map[int]bool{}
+		for k := 0; k < 6; k++ {
+			want[r.Intn(40+8*len(wire))] = true
+		}
+		i := 0
+		stop := false
+		gen.Hostile(wire, r, gen.HostileOpt{Fix: ofFix, MaxPos: 64, Random: 8, MaxExtend: len(wire) + 64}, func(class string, in []byte) bool {
+			if want[i] {
+				c.Count("hostile_variants_tried", 1)
+				if len(in) >= 8 && c12Observe(c, cs, kind+"~"+class, in, false) {
+					c.Count("hostile_variants_parsed", 1)
+				} else if c.Poisoned() {
+					stop = true
+				}
+			}
+			i++
+			return !stop && i < 40+8*len(wire)
+		})
+	}
+	if c.WantSample() && nt && len(wire) < 200 && c.Index%13 == 0 {
+		c.Sample(map[string]any{"kind": kind, "wire": fmt.Sprintf("%x", wire), "slack": cs.Slack})
+	}
+}
+
+// c12Observe parses one frame from a window of a larger array and runs both monitors on the result. It returns false
+// when the parser did not produce a message (or a violation ended the observation).
+func c12Observe(c *fw.Ctx, cs *c12Case, kind string, wire []byte, conformant bool) bool {
 	// the input is a window of a larger array, like the contents of a pooled bytes.Buffer
 	arr := make([]byte, cs.Slack+len(wire)+cs.Slack)
 	for i := range arr {
@@ -76,26 +134,25 @@ func c12Eval(c *fw.Ctx, data any) {
 	vd := fw.Guard(len(buf), func() { msg, perr = of.Parse(buf) })
 	switch vd.Class {
 	case "panic":
-		c.Violation(kind, "panic", fw.LibFrame(vd.Stack), vd.Panic+"\n"+fw.TrimStack(vd.Stack))
-		return
+		if conformant {
+			c.Violation(kind, "panic", fw.LibFrame(vd.Stack), vd.Panic+"\n"+fw.TrimStack(vd.Stack))
+		}
+		return false
 	case "cpu", "alloc":
 		c.Count("parser_over_budget_skipped", 1) // C07's business; the call may still be running: leave this process
 		c.Poison()
-		return
+		return false
 	}
 	var p bool
 	var pv, st string
 	if perr != nil || isNil(msg) {
-		c.Count("rejected_by_parser", 1)
-		return
+		if conformant {
+			c.Count("rejected_by_parser", 1)
+		}
+		return false
 	}
-	c.Count("parsed", 1)
-	c.Set("kinds", kind)
-	for k := range nested {
-		c.Set("nested_kinds", k)
-	}
-	if m.K == "packet_in" {
-		c.Set("payload_chains", payloadChain(m.Sub("packet")))
+	if conformant {
+		c.Count("parsed", 1)
 	}
 	// Monitor A: no slice reachable from the message may live inside the input array
 	lo := uintptr(unsafe.Pointer(&arr[0]))
@@ -108,7 +165,7 @@ func c12Eval(c *fw.Ctx, data any) {
 	c.Count("slices_checked", int64(len(regs)))
 	for _, r := range regs {
 		if r.Size > 0 && r.Ptr < hi && r.Ptr+r.Size > lo {
-			c.Violation(kind, "alias", c12Path(r.Path), fmt.Sprintf("the slice at %s of the parsed %T (backing array %d bytes) lies inside the input buffer (offset %d of the %d-byte input array)", r.Path, msg, r.Size, int64(r.Ptr)-int64(lo), len(arr)))
+			c.Violation(kind, "alias", c12Path(r.Path), fmt.Sprintf("the slice at %s of the parsed %T (backing array %d bytes) lies inside the input buffer (offset %d of the %d-byte input array)\ninput: %s", r.Path, msg, r.Size, int64(r.Ptr)-int64(lo), len(arr), hexHead(wire)))
 		}
 	}
 	// Monitor B: overwriting the input must not change the message
@@ -121,8 +178,10 @@ func c12Eval(c *fw.Ctx, data any) {
 		e1 = append([]byte(nil), b...)
 	})
 	if p {
-		c.Violation(kind, "panic", "reencode:"+fw.LibFrame(st), pv+"\n"+fw.TrimStack(st))
-		return
+		if conformant {
+			c.Violation(kind, "panic", "reencode:"+fw.LibFrame(st), pv+"\n"+fw.TrimStack(st))
+		}
+		return false // (a hostile frame whose parsed value cannot be encoded again is not this property's business)
 	}
 	for round := 0; round < 2; round++ {
 		for i := range arr {
@@ -138,8 +197,8 @@ func c12Eval(c *fw.Ctx, data any) {
 			e2 = append([]byte(nil), b...)
 		})
 		if p {
-			c.Violation(kind, "changed", "panic-after-overwrite:"+fw.LibFrame(st), pv)
-			return
+			c.Violation(kind, "changed", "panic-after-overwrite:"+fw.LibFrame(st), pv+"\ninput: "+hexHead(wire))
+			return false
 		}
 		if d1 != d2 {
 			off := 0
@@ -150,8 +209,8 @@ func c12Eval(c *fw.Ctx, data any) {
 			if a < 0 {
 				a = 0
 			}
-			c.Violation(kind, "changed", "fields", fmt.Sprintf("overwriting the input buffer changed the parsed message\nbefore: …%s\nafter:  …%s", clip(d1, a, b), clip(d2, a, b)))
-			return
+			c.Violation(kind, "changed", "fields", fmt.Sprintf("overwriting the input buffer changed the parsed message\nbefore: …%s\nafter:  …%s\ninput: %s", clip(d1, a, b), clip(d2, a, b), hexHead(wire)))
+			return false
 		}
 		if !bytes.Equal(e1, e2) {
 			off := 0
@@ -159,13 +218,13 @@ func c12Eval(c *fw.Ctx, data any) {
 				off++
 			}
 			c.Violation(kind, "changed", "reencoding", fmt.Sprintf("overwriting the input buffer changed the re-encoding of the parsed message at offset %d\nbefore: %s\nafter:  %s", off, window(e1, off), window(e2, off)))
-			return
+			return false
 		}
 	}
-	c.Count("owned", 1)
-	if c.WantSample() && nt && len(wire) < 200 && c.Index%13 == 0 {
-		c.Sample(map[string]any{"kind": kind, "wire": fmt.Sprintf("%x", wire), "slices_in_graph": len(regs), "slack": cs.Slack})
+	if conformant {
+		c.Count("owned", 1)
 	}
+	return true
 }
 
 func clip(s string, a, b int) string {
